@@ -9,9 +9,9 @@ EXTENDS Chain, Json, IOUtils
 
 Rec == ndJsonDeserialize(IOEnv.TRACE)
 
-VARIABLES l, bad, wal, lost, det   \* det: the node has attempted a chain without known ancestors (history)
+VARIABLES l, bad, wal, lost, deep, det   \* det: the node has attempted a chain without known ancestors (history)
 
-tvars == <<A, S, w, last, l, bad, wal, det, lost>>
+tvars == <<A, S, w, last, l, bad, wal, det, lost, deep>>
 
 Rng(s) == {s[i] : i \in DOMAIN s}
 
@@ -37,7 +37,7 @@ Bound(A2, P, b) == BoundM(A2, P, b, "flags")
 
 KindStr(A2, P, b) == Decide(A2, P, b, "flags").k \o "/" \o Decide(A2, P, b, "stored").k
 
-Checks(e, A2, P, T, prevwal, det2, lost1) ==
+Checks(e, A2, P, T, prevwal, det2, lost1, deep2) ==
     LET b == e.b
         (* regimes of the known findings.  modelled: the state after the rejected call differs from *)
         (* the state before it and is exactly what Chain.tla (FailState) says a reorganisation      *)
@@ -57,7 +57,10 @@ Checks(e, A2, P, T, prevwal, det2, lost1) ==
         \* the extreme of purging ahead: a candidate of 2G+1 stored blocks purged the old tip itself;
         \* the rejected call (now or earlier in the scenario) left the node without a chain
         lost2 == lost1 \/ (modelled /\ ~Accepted(e.res) /\ T.tip = None /\ P.tip # None)
-        sfx == IF lost2 THEN "-after-purging-ahead-erased-the-chain" ELSE ""
+        \* deep2: the node has adopted a chain whose fork point lies below blocks of its own chain that were
+        \* already purged - those blocks could not be unwound, their flags and ledger effects stay (known finding)
+        sfx == IF lost2 THEN "-after-purging-ahead-erased-the-chain"
+               ELSE IF deep2 THEN "-after-reorganisation-deeper-than-retention" ELSE ""
         c03 == IF IsPanic(e.res) THEN {} ELSE
                {Bad(e, "C03", x \o sfx) : x \in InconsistenciesT(A2, T, ~det2) \ (IF det2 THEN {"utxo"} ELSE {})}
         c04 == (IF IsPanic(e.res)
@@ -104,16 +107,24 @@ LostNow(e, A2, P, T, det2) ==
         N(X) == [X EXCEPT !.top = 0, !.utxo = @ \ (StaleOuts(A2, T) \cup StaleOuts(A2, P))]
     IN ~Accepted(e.res) /\ ~IsPanic(e.res) /\ T.tip = None /\ P.tip # None /\ N(T) \in {N(f) : f \in fails}
 
+(* the call reorganises onto a chain that shares an ancestor with the current one, but the walk from the tip *)
+(* down to that ancestor ends early at a block whose parent has been purged                                  *)
+DeepNow(e, A2, P) ==
+    LET d == Decide(A2, P, e.b, "flags")
+        nc == NewChain(A2, e.b, P.stored \cup {e.b}, P.inlc)
+    IN /\ d.k = "Reorg" /\ nc.found /\ d.old # <<>>
+       /\ A2[d.old[Len(d.old)]].parent # nc.anc
+
 TraceInit ==
     /\ A = <<>> /\ S = EmptyState /\ w = Idle
     /\ last = [b |-> None, res |-> "none", ok |-> TRUE, same |-> TRUE, det |-> FALSE]
-    /\ l = 1 /\ bad = {} /\ wal = <<>> /\ det = FALSE /\ lost = FALSE
+    /\ l = 1 /\ bad = {} /\ wal = <<>> /\ det = FALSE /\ lost = FALSE /\ deep = FALSE
 
 TraceNext ==
     /\ l <= Len(Rec)
     /\ LET e == Rec[l] IN
        IF e.ev = "Reset"
-       THEN /\ A' = <<>> /\ S' = [EmptyState EXCEPT !.loaded = e.loaded] /\ wal' = <<>> /\ bad' = bad /\ det' = FALSE /\ lost' = FALSE
+       THEN /\ A' = <<>> /\ S' = [EmptyState EXCEPT !.loaded = e.loaded] /\ wal' = <<>> /\ bad' = bad /\ det' = FALSE /\ lost' = FALSE /\ deep' = FALSE
        ELSE LET A2 == IF e.b \in DOMAIN A THEN A ELSE (e.b :> Attrs(e)) @@ A
                 T == Obs(e)
                 det2 == det \/ DetachedReorg(A2, S, e.b)
@@ -122,7 +133,8 @@ TraceNext ==
                /\ wal' = e.wal
                /\ det' = det2
                /\ lost' = (lost \/ LostNow(e, A2, S, T, det2))
-               /\ bad' = bad \cup Checks(e, A2, S, T, wal, det2, lost)
+               /\ deep' = (deep \/ DeepNow(e, A2, S))
+               /\ bad' = bad \cup Checks(e, A2, S, T, wal, det2, lost, deep \/ DeepNow(e, A2, S))
     /\ l' = l + 1
     /\ UNCHANGED <<w, last>>
 
